@@ -1,6 +1,7 @@
 /-
   C16 — Help and man page show exactly the visible interface.
 -/
+import GoFlags.Props.C16.Trans
 import GoFlags.Man
 
 namespace GoFlags.C16
